@@ -123,6 +123,24 @@ pub fn fmt_message(m: &message_types::Message) -> String {
     )
 }
 
+/// id -> processed_at of every stored message, plus the listing order in both sort modes. Not part
+/// of `Fp` (wall-clock values must not be compared across clients or runs); compared only before /
+/// after a re-delivery at one client, where nothing may be rewritten.
+pub fn processed_at_view<S: MdkStorageProvider>(m: &MDK<S>, gid: &GroupId) -> String {
+    let mut out = String::new();
+    for sort in [mdk_storage_traits::groups::MessageSortOrder::CreatedAtFirst, mdk_storage_traits::groups::MessageSortOrder::ProcessedAtFirst] {
+        match m.get_messages(gid, Some(Pagination::with_sort_order(Some(10_000), Some(0), sort))) {
+            Ok(ms) => {
+                out.push_str(&format!("{sort:?}: "));
+                out.push_str(&ms.iter().map(|x| format!("{}@{}", &x.id.to_hex()[..8], x.processed_at.as_secs())).collect::<Vec<_>>().join(" "));
+                out.push('\n');
+            }
+            Err(_) => out.push_str("<err>\n"),
+        }
+    }
+    out
+}
+
 pub fn fingerprint<S: MdkStorageProvider>(m: &MDK<S>, gid: &GroupId) -> Fp {
     let mut fp = Fp::default();
     let rec = m.get_group(gid).ok().flatten();
